@@ -101,7 +101,8 @@ pub fn managed_race(prop: &'static str, seed: u64, close: bool) -> RaceOut {
     let final_max = *resizes.last().unwrap();
     let delay = if small { rng.below(30) } else if storm { rng.below(300) } else { rng.below(if dense { 40_000 } else { 3000 }) };
     let cnt = Arc::new(Cnt::default());
-    let pool: Pool<LMgr> = Pool::builder(LMgr(cnt.clone())).max_size(start_max).build().unwrap();
+    let lifo = rng.chance(1, 2);
+    let pool: Pool<LMgr> = Pool::builder(LMgr(cnt.clone())).max_size(start_max).queue_mode(if lifo { managed::QueueMode::Lifo } else { managed::QueueMode::Fifo }).build().unwrap();
     let stop = Arc::new(AtomicBool::new(false));
     let gets = Arc::new(AtomicUsize::new(0));
     let mut hs = Vec::new();
